@@ -505,6 +505,7 @@ def repeat_case(seed, idx, tier):
                  "kw": "pos", "lambda": "kw", "posdefault": "kw", "objfalsy": "objkw"}[sA["callback"]["style"]]
         sB["callback"] = {"style": other, "mutate": False, "stop_at": None}
     base_digest = base.digest()
+    base_nevals = _nevals(base)
     del base
     gc.collect()
 
@@ -523,11 +524,24 @@ def repeat_case(seed, idx, tier):
     r3 = once(sA, plan, use_probes=False)
     r5 = once(sA, plan + [scenario.poison_knob(rng)])
     rf_ = once(sA2, plan)
+    # crash and restart: the same call dies inside a user function (which raises) at a seeded evaluation, from
+    # its own PRNG stream; whatever the interrupted call had in flight must not survive into the next call
+    rk = Rng(seed, "C11a-crash", idx)
+    crash = None
+    tg = scenario.gen_targets(sA)
+    if tg and rk.chance(0.7):
+        crash = [{"kind": "crash", "target": "obj" if (sA.get("obj") is not None and rk.chance(0.5)) else rk.pick(tg),
+                  "when": {"at": rk.randint(1, max(1, base_nevals))},
+                  "exc": rk.wpick([(3, "stop"), (3, "runtime"), (1, "lookup"), (1, "arith")])}]
+        rc_ = once(sA, crash)
+        st["c11.a_crashed_calls"] += 1
+    else:
+        rc_ = (None, None, [], sA, [])
     r4 = once(sA, [])
-    if any(r[0] for r in (r1, r2, r3, r5, rb, rf_, r4)):
+    if any(r[0] for r in (r1, r2, r3, r5, rb, rf_, rc_, r4)):
         return cr
     st["c11.a_repeats"] += 1
-    pay = {"engine": "repeat", "stmt": sA, "faults": plan, "between": sB, "forced": sA2}
+    pay = {"engine": "repeat", "stmt": sA, "faults": plan, "between": sB, "forced": sA2, "crash": crash}
     if r1[1] != r2[1]:
         cr.add_viols([Viol("C11", "a", "repeating a call after another call gives a different run", key="repeat_differs")], pay)
     if r1[1] != r3[1]:
@@ -539,7 +553,7 @@ def repeat_case(seed, idx, tier):
     if base_digest != r4[1]:
         cr.add_viols([Viol("C11", "a", "the first call of the process and the same call made after four other calls "
                            "differ", key="history_dependent")], pay)
-    for r in (r1, rb, rf_):
+    for r in (r1, rb, rf_, rc_):
         cr.add_viols(r[2], {"engine": "args", "stmt": r[3], "faults": r[4]})
     cr.sample = {"stmt": sA, "faults": plan}
     return cr
@@ -645,6 +659,8 @@ def replay(p):
         r3 = dig(p["stmt"], p["faults"], use_probes=False)
         if p.get("forced"):
             dig(p["forced"], p["faults"])
+        if p.get("crash"):
+            dig(p["stmt"], p["crash"])
         r4 = dig(p["stmt"], [])
         out = []
         if r1 != r2:
